@@ -16,6 +16,7 @@
 """
 import itertools
 import json
+import os
 import random
 import time
 
@@ -181,15 +182,57 @@ def gen_targets(rng, tasks):
                 state[a['eff'][1]] = 'file'    # what the action removes usually exists
     if rng.random() < 0.2:
         state['shared/other'] = 'file'
+    # symbolic links among the targets of `clean: True` tasks: to a file outside / inside the tree, to a directory that
+    # can never become empty (os.rmdir on a link to an empty directory kills the command: kept out, see META), broken
+    links = []
+    for i, t in enumerate(tasks):
+        if t['kind'] == 'targets' and rng.random() < 0.3:
+            for _ in range(rng.randint(1, 2)):
+                kind = rng.choice(['out-file', 'out-file', 'in-file', 'out-dir', 'in-dir', 'broken'])
+                link = rng.choice(['ln%d' % i, 'o%d/lnk' % i, 'lnk%d.d/l' % i])
+                if any(l[0] == link for l in links) or link in state:
+                    continue
+                if kind == 'out-file':
+                    dest = '../store/v%d.txt' % i
+                    state[dest] = 'file'
+                elif kind == 'in-file':
+                    dest = 'top%d' % i
+                    state[dest] = 'file'
+                    if rng.random() < 0.5 and dest not in t['targets']:
+                        t['targets'].append(dest)
+                elif kind == 'out-dir':
+                    dest = '../store/d%d' % i
+                    state[dest + '/keep'] = 'file'
+                elif kind == 'in-dir':
+                    dest = 'keepdir%d' % i
+                    state[dest + '/keep'] = 'file'
+                else:
+                    dest = 'nowhere%d' % i
+                t['targets'].append(link)
+                links.append([link, dest])
     for p, s in sorted(state.items()):
         if s == 'missing':
             continue
         parts = p.split('/')
         for k in range(1, len(parts)):
-            dirs.add('/'.join(parts[:k]))
+            if parts[:k] != ['..']:
+                dirs.add('/'.join(parts[:k]))
         (files if s == 'file' else dirs).add(p)
     files -= dirs
-    return sorted(files), sorted(dirs)
+    out_links = []
+    for link, dest in links:
+        parts = link.split('/')
+        for k in range(1, len(parts)):
+            dirs.add('/'.join(parts[:k]))
+        out_links.append([link, os.path.relpath(dest, os.path.dirname(link) or '.')])
+    for d in list(dirs):
+        if d.startswith('../'):
+            parts = d.split('/')
+            for k in range(2, len(parts)):
+                dirs.add('/'.join(parts[:k]))
+    dirs.discard('..')
+    files -= dirs
+    return sorted(files), sorted(dirs), out_links
 
 
 PATTERNS = ['*', 'g*', 't*', '*:s0', '*:*', 'g1:*', '*1', 'u*', '*x*', 'g?*']
@@ -232,7 +275,7 @@ def gen_args(rng, tasks):
 
 def gen_case(rng):
     tasks, cyclic = gen_tasks(rng)
-    files, dirs = gen_targets(rng, tasks)
+    files, dirs, links = gen_targets(rng, tasks)
     pos, defaults, mode = gen_args(rng, tasks)
     labels = [t['label'] for t in tasks]
     r = rng.random()
@@ -240,7 +283,7 @@ def gen_case(rng):
     return {'tasks': tasks, 'pos': pos, 'defaults': defaults,
             'cleandep': rng.random() < 0.4, 'cleanall': rng.random() < 0.12,
             'dryrun': rng.random() < 0.25, 'forget': rng.random() < 0.45,
-            'files': files, 'dirs': dirs, 'backend': rng.choice(['json', 'dbm', 'sqlite3']), 'ran': ran,
+            'files': files, 'dirs': dirs, 'links': links, 'backend': rng.choice(['json', 'dbm', 'sqlite3']), 'ran': ran,
             'sel_mode': mode}
 
 
@@ -385,6 +428,10 @@ def shrink_candidates(case):
             c = dict(case)
             c[key] = case[key][:j] + case[key][j + 1:]
             yield c
+    for j in range(len(case.get('links', []))):
+        c = dict(case)
+        c['links'] = case['links'][:j] + case['links'][j + 1:]
+        yield c
     if case.get('ran'):
         c = dict(case)
         c['ran'] = []
@@ -433,7 +480,8 @@ def describe(case):
     argv = ['clean'] + [o for f, o in (('cleandep', '--clean-dep'), ('cleanall', '--clean-all'),
                                        ('dryrun', '--dry-run'), ('forget', '--forget')) if case.get(f)] + case['pos']
     return {'tasks': ts, 'argv': ' '.join(argv), 'default_tasks': case.get('defaults'),
-            'files': case['files'], 'dirs': case['dirs'], 'backend': case['backend'], 'ran': case.get('ran')}
+            'files': case['files'], 'dirs': case['dirs'], 'links': ['%s -> %s' % tuple(l) for l in case.get('links', [])],
+            'backend': case['backend'], 'ran': case.get('ran')}
 
 
 def is_nontrivial(case, obs):
@@ -470,6 +518,8 @@ def process_batch(batch):
             st.count('has-group')
         if any(t['setup'] for t in tasks):
             st.count('has-setup-edge')
+        for l in case.get('links', []):
+            st.count('symlink-target:%s' % ('outside' if '../store' in l[1] or l[1].startswith('../../') else 'inside/broken'))
         for t in tasks:
             acts = t.get('actions', []) if t['kind'] == 'actions' else []
             if acts:
@@ -502,8 +552,8 @@ def process_batch(batch):
                 c2, o2, a2, d2, f2 = case, obs, ans, diffs, failed
             st.violation({'case': c2, 'described': describe(c2), 'failed_clauses': f2,
                           'impl': {k: o2.get(k) for k in ('outcome', 'argv', 'order', 'events', 'files0', 'dirs0',
-                                                          'files', 'dirs', 'db0', 'db')},
-                          'model': {k: a2.get(k) for k in ('outcome', 'order', 'events', 'files', 'dirs', 'db', 'base',
+                                                          'links0', 'files', 'dirs', 'links', 'db0', 'db')},
+                          'model': {k: a2.get(k) for k in ('outcome', 'order', 'events', 'files', 'dirs', 'links', 'db', 'base',
                                                            'acyclic', 'with_deps')}},
                          'monitor', '; '.join(f2))
         elif diffs:
@@ -581,6 +631,7 @@ def replay(ctx, data):
     print('model events :', a.get('events'))
     print('impl  files  :', o.get('files0'), '->', o.get('files'))
     print('impl  dirs   :', o.get('dirs0'), '->', o.get('dirs'))
+    print('impl  links  :', o.get('links0'), '->', o.get('links'), '  model:', a.get('links'))
     print('impl  db     :', o.get('db0'), '->', o.get('db'), '  model:', a.get('db'))
     print('monitor      :', a.get('monitor'), failed)
     print('correspondence differences:', diffs)
